@@ -106,3 +106,14 @@ Theorem cmap4_segments_tile : forall m ss es, ModelCmap4.segments m = (ss, es) -
                   ProofsCmap4.ranges_codes ss1 es1 = map fst m.
 Proof. exact ProofsCmap4.segments_tile. Qed.
 Print Assumptions cmap4_segments_tile.
+
+(* second-generation stability (C01's "reaches a fixed point") for cmap format 6, for ANY bytes the decoder accepts: decoding what
+   was compiled from a decoded subtable gives that subtable again *)
+Theorem cmap6_recompile_stable : forall data language m,
+  Forall is_byte data -> ModelCmap6.cmap6_decompile data = Ok (language, m) ->
+  match ModelCmap6.cmap6_compile language m with
+  | Ok bytes => ModelCmap6.cmap6_decompile bytes = Ok (language, m)
+  | Err _ => True
+  end.
+Proof. exact ProofsCmap6.cmap6_recompile_stable. Qed.
+Print Assumptions cmap6_recompile_stable.
